@@ -195,3 +195,8 @@ func enumOracle(root *packages.Package, tbl map[*types.Named]*analysis.Enum) []o
 	}
 	return out
 }
+
+func observeUnionsDirect(l *loaded) (e map[*types.Named]*analysis.Enum, u map[*types.Named][]*types.Named) {
+	defer func() { recover() }()
+	return analysis.VerifEnumsAndUnions(l.pkg)
+}
